@@ -81,7 +81,7 @@ func c03Policy(cs *core.Case) []spec.Op {
 	if cs.Index < 2*len(implying) {
 		ops = append(ops, implying[cs.Index%len(implying)])
 		if cs.Index >= len(implying) {
-			ops = append(ops, spec.Op{K: spec.KRewrite, Check: "proxy"})
+			ops = append(ops, spec.Op{K: spec.KRewrite, Check: gen.Pick(r, []string{"proxy", "proxy", "blank"})})
 		}
 		return ops
 	}
@@ -160,7 +160,13 @@ func c03Judge(cs *core.Case, env *Env, pos urlPos, in, out string, lc core.Local
 			}
 			rewritten := false
 			if sp.Rewriter != "" && a.Key == "src" {
-				if strings.HasPrefix(v, "https://"+spec.ProxyHost+"/p?vmark=1&u=") {
+				if sp.Rewriter == "blank" {
+					if v != "" {
+						viol("not-rewritten", "the installed src rewriter blanks every URL but the value is not empty")
+					}
+					rewritten = true
+					lc["rewritten_src_seen"]++
+				} else if strings.HasPrefix(v, "https://"+spec.ProxyHost+"/p?vmark=1&u=") {
 					rewritten = true
 					lc["rewritten_src_seen"]++
 				} else {
